@@ -240,7 +240,7 @@ def _crash(p1, crash_at, n_saves, sizeclass):
 
 
 _A = ['a', 'b', '/']
-_PW = ['', 'a', 'b', 'ab', 'a/', 'a/b', 'aa', 'metadata', 'a/full']
+_PW = ['', 'a', 'ab', 'a/b', 'metadata', 'a/full']
 CONDITIONS = [
     {'fn': 'confined', 'nontrivial': 'transient-cleanup',
      'what': 'two cassettes with symbolic prefixes in one bucket with foreign objects: read-only never mutates; writes '
@@ -248,7 +248,7 @@ CONDITIONS = [
      'tiers': {'quick': {'bounds': {'P1': ['', 'a', 'ab'], 'P2': ['', 'a', 'ab'], 'C': 2, 'FOREIGN': ['a/full/x', 'full/z']}, 'timeout': 600,
                          'shards': [{'ro': r, 'tr': t, 'p1': w} for r in (False, True) for t in (False, True) for w in ('', 'a', 'ab')],
                          'witness_shard': {'ro': False, 'tr': True, 'p1': 'a'}},
-               'thorough': {'bounds': {'P1': _PW, 'P2': _PW, 'C': 3, 'FOREIGN': ['', 'a/full/x', 'ab/metadata/y', 'full/z', 'a//full/q']}, 'timeout': 8000,
+               'thorough': {'bounds': {'P1': _PW, 'P2': _PW, 'C': 2, 'FOREIGN': ['', 'a/full/x', 'ab/metadata/y', 'full/z', 'a//full/q']}, 'timeout': 8000,
                             'shards': [{'ro': r, 'tr': t, 'p1': w} for r in (False, True) for t in (False, True) for w in _PW],
                             'witness_shard': {'ro': False, 'tr': True, 'p1': 'a'}}}},
     {'fn': 'confined_symbolic', 'nontrivial': 'transient',
